@@ -179,7 +179,8 @@ LineObj(i, l, comp, muted, zone, file, region) ==
 \* operand substitution of a defined preprocessor symbol (whole word; C09 is decided in Symbols.tla)
 \* kinds whose operand is a reference (or a literal): brl is a branch whose field carries target - own address, mbr a macro whose
 \* MIDDLE step is that branch (nop / bra @ARG(0) / nop): the step's own address is the macro's address + 1
-RefKinds == {"i2", "i3", "byte", "brl", "mbr"}
+\* fillr: .fill <a>, <name> - a fill whose VALUE is a reference; with a count of 0 it emits nothing, and its reference still has to resolve
+RefKinds == {"i2", "i3", "byte", "brl", "mbr", "fillr"}
 Subst(l, defs) ==
     IF l.k \in RefKinds /\ l.n \in SymNames /\ defs[l.n] # Undef
     THEN [l EXCEPT !.n = "", !.a = Val(defs, l.n)] ELSE l
@@ -261,14 +262,14 @@ ReadAll(r, p, j) == IF j > Len(p) \/ r.status # "run" THEN r ELSE ReadAll(ReadSt
 ---------------------------------------------------------------------------
 (* Pass 1 (C02, C05): addresses, sizes, zone cursors, label binding.       *)
 
-ByteKinds == {"brl", "mbr", "i1", "m2", "ustr", "wstr", "rstr", "i2", "i3", "byte", "fill", "zero", "zuntil", "pdata", "raw"}
+ByteKinds == {"fillr", "brl", "mbr", "i1", "m2", "ustr", "wstr", "rstr", "i2", "i3", "byte", "fill", "zero", "zuntil", "pdata", "raw"}
 
 SizeOf(lo, addr) ==
     CASE lo.k = "i1" -> 1 [] lo.k = "i2" -> 2 [] lo.k = "i3" -> 3 [] lo.k = "m2" -> 2 [] lo.k = "ustr" -> 2 [] lo.k = "brl" -> 2 [] lo.k = "mbr" -> 4
       [] lo.k = "wstr" -> 4             \* .2byte "AB": every character of the string is a value of the directive's width
       [] lo.k = "rstr" -> 3             \* an embedded string "é" written with the character itself: its two UTF-8 bytes and the terminator
       [] lo.k = "byte" -> lo.b
-      [] lo.k \in {"fill", "zero"} -> lo.a
+      [] lo.k \in {"fill", "zero", "fillr"} -> lo.a
       [] lo.k = "zuntil" -> IF lo.a >= addr THEN lo.a - addr + 1 ELSE 0
       [] lo.k = "raw" -> lo.b            \* trace use: a byte line of a real ISA, its size as recorded
       [] OTHER -> 0
@@ -368,6 +369,8 @@ BytesOf(o, tab) ==
       [] o.k = "byte" -> IF v = Undef THEN [bytes |-> <<>>, err |-> "unresolved"]
                          ELSE [bytes |-> [j \in 1..o.b |-> Mod256(IF j = 1 THEN v ELSE o.a + j - 1)], err |-> ""]
       [] o.k = "fill" -> [bytes |-> [j \in 1..o.size |-> Mod256(o.b)], err |-> ""]
+      [] o.k = "fillr" -> IF v = Undef THEN [bytes |-> <<>>, err |-> "unresolved"]
+                          ELSE [bytes |-> [j \in 1..o.size |-> Mod256(v)], err |-> ""]
       [] o.k \in {"zero", "zuntil"} -> [bytes |-> [j \in 1..o.size |-> 0], err |-> ""]
       [] o.k = "pdata" -> [bytes |-> [j \in 1..o.size |-> Mod256(o.a)], err |-> ""]
       [] OTHER -> [bytes |-> <<>>, err |-> ""]
